@@ -321,7 +321,31 @@ func c05Set(p *Prog, r *Report) {
 		}
 		for _, c := range callsIn(n.Ast, false) {
 			if isCAS(c) && !f.MustPrecede(setOf(cmpNodes), n.ID) {
-				unconditional = p.pos(n.Ast)
+				// ... or the comparison is the left operand of the short-circuit the swap sits in:
+				// cur >= want || CAS(cur, want)   /   cur < want && CAS(cur, want)
+				guarded := false
+				ast.Inspect(n.Ast, func(x ast.Node) bool {
+					be, ok := x.(*ast.BinaryExpr)
+					if !ok || (be.Op != token.LOR && be.Op != token.LAND) {
+						return true
+					}
+					inRight := false
+					ast.Inspect(be.Y, func(y ast.Node) bool {
+						if y == ast.Node(c) {
+							inRight = true
+						}
+						return !inRight
+					})
+					if inRight {
+						if tJ, fJ, known := atomJust(be.X); known && ((be.Op == token.LOR && tJ) || (be.Op == token.LAND && fJ)) {
+							guarded = true
+						}
+					}
+					return true
+				})
+				if !guarded {
+					unconditional = p.pos(n.Ast)
+				}
 			}
 		}
 	}
